@@ -75,7 +75,7 @@ Proof.
 Qed.
 
 Lemma tostring_strish v s : strish (fst (tostring_tail v s)).
-Proof. unfold tostring_tail. destruct (to_string big_fuel v) as [[t u] k]. destruct u; [apply strish_unk|apply strish_str]. Qed.
+Proof. unfold tostring_tail. destruct (to_string (ts_need v) v) as [[t u] k]. destruct u; [apply strish_unk|apply strish_str]. Qed.
 
 Lemma fromjson_h1 r s : h1 (fst (fromjson_tail r s)).
 Proof.
@@ -97,7 +97,7 @@ Lemma open_tail_out W E id pn p r s : w_fault W = None -> conform p ->
 Proof.
   intros HF HC. destruct r as [iv ok]. unfold open_tail.
   destruct (negb ok || contains_unknowns iv || w_check W); [split; [now apply h1_unk|now apply ac_unk]|].
-  destruct (export big_fuel iv) as [[sx ux y|sx ux y|sx ux m]|]; try (split; [now apply h1_unk|now apply ac_unk]).
+  destruct (export_t iv) as [[sx ux y|sx ux y|sx ux m]|]; try (split; [now apply h1_unk|now apply ac_unk]).
   unfold bind, call. rewrite HF. mred. unfold conform in HC. destruct (pv_beh p).
   - rewrite HC. split; [apply unexport_h1|apply ac_always].
   - split; [apply unexport_h1|eapply acc_unexport; exact HC].
@@ -212,8 +212,8 @@ Proof.
   pose proof (str_top _ (eq_sym Ed) CUd) as Kd. pose proof (arr_top _ (eq_sym Ev) CUv) as Kv.
   destruct (kstr_ap _ _ Kd Hd) as (Kd' & HSd & EXd). destruct (karr_ap _ _ Kv Hv) as (Kv' & HSv & EXv).
   rewrite (kstr_validate _ Kd') in Ed'. rewrite (karr_validate _ Kv') in Ev'. simpl in Ed'. subst dok' vok'.
-  assert (X1 : export big_fuel dv = export big_fuel dv') by (rewrite big_fuel_S; apply EXd).
-  assert (X2 : export big_fuel vv = export big_fuel vv') by (rewrite big_fuel_S, bf'_S; apply EXv).
+  assert (X1 : export_t dv = export_t dv') by (apply kstr_export_t; assumption).
+  assert (X2 : export_t vv = export_t vv') by (apply karr_export_t; assumption).
   destruct (export_eq_cu _ _ X1) as [U1 S1]. destruct (export_eq_cu _ _ X2) as [U2 S2].
   unfold join_tail, combine2. simpl negb. cbn [orb]. rewrite <- U1, <- U2, <- S1, <- S2, CUd, CUv. cbn [orb].
   fold (head_str dv) (head_str dv') (arr_strs vv) (arr_strs vv'). rewrite HSd, HSv. apply srl_ret, sa_str.
@@ -221,10 +221,10 @@ Qed.
 
 Theorem tostring_sa v v' : sa b v v' -> msa (sa b) (tostring_tail v) (tostring_tail v').
 Proof.
-  intros Hv0. pose proof (sa_ap _ _ _ Hv0) as Hv. pose proof (to_string_ap big_fuel _ _ Hv) as [Hu|E].
-  - unfold tostring_tail at 1. destruct (to_string big_fuel v) as [[s u] k]. simpl in Hu. subst u.
+  intros Hv0. pose proof (sa_ap _ _ _ Hv0) as Hv. pose proof (to_string_need_ap _ _ Hv) as [Hu|E].
+  - unfold tostring_tail at 1. destruct (to_string (ts_need v) v) as [[s u] k]. simpl in Hu. subst u.
     apply srl_unk_str; [apply neutral_tostring_tail|intro; apply tostring_strish].
-  - unfold tostring_tail. rewrite E. destruct (to_string big_fuel v') as [[s u] k].
+  - unfold tostring_tail. rewrite E. destruct (to_string (ts_need v') v') as [[s u] k].
     destruct u; apply srl_ret; [apply sa_unk_str_refl|apply sa_str].
 Qed.
 
@@ -241,10 +241,21 @@ Theorem tojson_sa v v' : sa b v v' -> msa (sa b) (tojson_tail v) (tojson_tail v'
 Proof.
   intros Hv. unfold tojson_tail at 1. cbv zeta. destruct (contains_unknowns v) eqn:CU.
   - apply srl_neutral_nof; [apply neutral_tails; exact Wc|]. intros st Hn. apply sa_unk_str. now apply tojson_strish.
-  - rewrite cu_eq in CU. destruct (export big_fuel v) as [xv|] eqn:X; [|discriminate].
+  - rewrite cu_eq in CU. destruct (export big_fuel v) as [xv|] eqn:X.
+    2:{ apply srl_nn_l, nn_bind_oof. intro; omono_tac. }
+    rewrite (RefSem2Depth.export_t_big _ _ X) in CU.
     pose proof (sa_export_known _ _ _ _ _ Hv X CU) as X'.
-    unfold tojson_tail. cbv zeta. rewrite !cs_eq, cu_eq, X, X', CU.
+    unfold tojson_tail. cbv zeta.
+    rewrite !cs_eq, cu_eq, (RefSem2Depth.export_t_big _ _ X), (RefSem2Depth.export_t_big _ _ X'), X', CU.
     destruct (json_all_ascii _ _); [apply srl_ret, sa_str|]. apply srl_nn_l, nn_bind_oof. intro; omono_tac.
+Qed.
+
+Lemma value_access_need_sa c o accs : sa b c o ->
+  sa b (fst (value_access (va_need c accs) c accs)) (fst (value_access (va_need o accs) o accs)).
+Proof.
+  intros H. rewrite (HelperFuel.value_access_need_max c accs (va_need o accs)),
+                    (HelperFuel.value_access_need_max' o accs (va_need c accs)).
+  apply value_access_sa, H.
 Qed.
 
 Lemma srl_access_result (r r' : chain * N) :
@@ -262,8 +273,8 @@ Proof.
     + apply sa_unk_str, strish_str.
     + destruct unk; [apply sa_unk_str, strish_str|apply sa_str].
   - rewrite !interp_go_ref. sbind (sa b); [now apply HA|].
-    intros pv pv' Hpv0. pose proof (sa_ap _ _ _ Hpv0) as Hpv. pose proof (to_string_ap big_fuel _ _ Hpv) as HT.
-    destruct (to_string big_fuel pv) as [[s u] k], (to_string big_fuel pv') as [[s' u'] k'].
+    intros pv pv' Hpv0. pose proof (sa_ap _ _ _ Hpv0) as Hpv. pose proof (to_string_need_ap _ _ Hpv) as HT.
+    destruct (to_string (ts_need pv) pv) as [[s u] k], (to_string (ts_need pv') pv') as [[s' u'] k'].
     apply IH. destruct HT as [Hu|Et].
     + simpl in Hu. subst u. left. apply Bool.orb_true_r.
     + injection Et as <- <- <-. destruct Hinv as [->|(-> & -> & ->)]; [now left|].
@@ -320,8 +331,8 @@ Lemma qstep_access f : Q_walk f -> Q_access (S f).
 Proof.
   intros HWk E E' p HE. rewrite !eval_access_S. destruct p as [|a0 rest]; [apply srl_ret, sa_invalid|].
   rewrite !access_body_sel. destruct (sel_cases (object_key a0)) as [S|[S|S]]; rewrite !S.
-  - apply srl_access_result. apply value_access_sa, HE.
-  - apply srl_access_result. apply value_access_sa, HE.
+  - apply srl_access_result. apply value_access_need_sa, HE.
+  - apply srl_access_result. apply value_access_need_sa, HE.
   - rewrite <- (es_name _ _ HE), <- (es_values _ _ HE), (es_base _ _ HE), (es_base' _ _ HE).
     now apply HWk.
 Qed.
@@ -329,7 +340,7 @@ Qed.
 Ltac qwalk_default HP HE :=
   sbind (sa b); [now apply HP|];
   let v1 := fresh "v" in let v2 := fresh "v" in let Hv := fresh "Hv" in
-  intros v1 v2 Hv; apply srl_access_result; now apply value_access_sa.
+  intros v1 v2 Hv; apply srl_access_result; now apply value_access_need_sa.
 
 Lemma qstep_walk f : Q_expr f -> Q_walk f -> Q_walk (S f).
 Proof.
